@@ -8,6 +8,11 @@ Python source on every run into Gallina terms, and coqc proves that Model/Nnls.v
   fista_loop_step   momentum extrapolation, norm = sum |x - x_new|, stopping test, copy
   aset_step         active_set_nnls inner loop: ratio, the move x + alpha (s - x), blocking coordinates attaining alpha put on the bound
   admm_none         x = transpose(solve(transpose(UtU), transpose(UtM)))
+  hals_error_nonzero_rows   rec_error += norm(V - newV)**2 (whole V: the broadcast), the nonzero_rows safety value and test, the ValueError
+  fista_entry       None -> 0 for sparsity_coef / ridge_coef, x None -> zeros, the default step 1 / (sigma + 2 ridge_coef)
+  admm_x_split      rho = trace(UtU) / shape(x)[1]; x_split = solve((UtU + rho I)^T, (UtM + rho (x + dual_var))^T)
+  aset_selection_termination   when argmax(gradient) enters the passive set; clip / gradient / termination test at the end of the loop
+(the structural parts of the last four are matched as ast patterns; their arithmetic is translated; all end in coqc goals about the model)
 Fail closed: a construct the translator does not know is a broken tie."""
 import ast
 
@@ -156,6 +161,11 @@ class Mat:
             if e.id in self.env:
                 return self.env[e.id]
             raise Untranslatable(f"name {e.id}")
+        if isinstance(e, ast.Subscript) and isinstance(e.value, ast.Call) and _callname(e.value) == "shape" and len(e.value.args) == 1 and _num(e.slice) in ("0", "1"):
+            a = self.expr(e.value.args[0])     # tl.shape(A)[k]: a natural number
+            if a[0] != "M":
+                raise Untranslatable("shape of a non-matrix")
+            return ("N", a[2 + int(_num(e.slice))])
         if isinstance(e, ast.UnaryOp) and isinstance(e.op, ast.USub):
             a = self.expr(e.operand)
             return ("M", f"(mmap (fopp Rops) {a[1]})", a[2], a[3]) if a[0] == "M" else ("S", f"(fopp Rops {a[1]})")
@@ -164,6 +174,10 @@ class Mat:
             f = {ast.Add: "fadd", ast.Sub: "fsub", ast.Mult: "fmul", ast.Div: "fdiv"}.get(type(e.op))
             if f is None:
                 raise Untranslatable("operator")
+            if b[0] == "N":
+                b = ("S", f"(nat2F Rops {b[1]})")
+            if a[0] == "N":
+                a = ("S", f"(nat2F Rops {a[1]})")
             if a[0] == "M" and b[0] == "M":
                 return ("M", f"(mmap2 ({f} Rops) {a[1]} {b[1]})", a[2], a[3])
             if a[0] == "M" and b[0] == "S":
@@ -184,6 +198,10 @@ class Mat:
             args = [self.expr(a) for a in e.args] if nm != "clip" else [self.expr(e.args[0])]
             if nm == "sum" and len(args) == 1 and args[0][0] == "M":
                 return ("S", f"(msum Rops {args[0][1]})")
+            if nm == "trace" and len(args) == 1 and args[0][0] == "M":
+                return ("S", f"(mtrace Rops {args[0][1]})")
+            if nm == "eye" and len(args) == 1 and args[0][0] == "N":
+                return ("M", f"(meye Rops {args[0][1]})", args[0][1], args[0][1])
             if nm == "abs" and len(args) == 1 and args[0][0] == "M":
                 return ("M", f"(mmap (fabs Rops) {args[0][1]})", args[0][2], args[0][3])
             if nm == "dot" and len(args) == 2 and args[0][0] == args[1][0] == "M":
@@ -541,13 +559,222 @@ def tie_aset_step(tree):
             "  destruct (Rle_dec b 0); [lra|]. rewrite andb_false_r. cbn [andb]. ring.\nQed.\n")
 
 
+def tie_hals_err_nz(tree):
+    """rec_error += tl.norm(V - newV) ** 2 (V the WHOLE matrix: NumPy broadcasts the new row) and the nonzero_rows safety procedure /
+    ValueError"""
+    fn = _func(tree, "hals_nnls")
+    outer = _for_over(fn.body, "iteration")
+    inner = _for_over(outer.body, "k")
+    guard = [s for s in inner.body if isinstance(s, ast.If)]
+    if len(guard) != 1 or not _sub(guard[0].test, "UtU", ["k", "k"]):
+        raise Untranslatable("`if UtU[k, k]:` guard not found")
+    body, orelse = guard[0].body, guard[0].orelse
+    upd = [s for s in body if isinstance(s, ast.Assign) and isinstance(s.value, ast.Call) and _callname(s.value) == "index_update"]
+    if len(upd) != 1 or not isinstance(upd[0].value.args[2], ast.Name):
+        raise Untranslatable("index_update(V, index[k, :], <name>) not found")
+    newrow = upd[0].value.args[2].id
+    errs = [s for s in body if isinstance(s, ast.AugAssign) and isinstance(s.target, ast.Name) and s.target.id == "rec_error"]
+    if len(errs) != 1 or not isinstance(errs[0].op, ast.Add) or body.index(errs[0]) > body.index(upd[0]):
+        raise Untranslatable("`rec_error += ...` before the index_update not found")
+    v = errs[0].value
+    if not (isinstance(v, ast.BinOp) and isinstance(v.op, ast.Pow) and _num(v.right) == "2" and isinstance(v.left, ast.Call) and _callname(v.left) == "norm"
+            and len(v.left.args) == 1 and isinstance(v.left.args[0], ast.BinOp) and isinstance(v.left.args[0].op, ast.Sub)
+            and isinstance(v.left.args[0].right, ast.Name) and v.left.args[0].right.id == newrow):
+        raise Untranslatable("rec_error increment is not tl.norm(<V> - <new row>) ** 2")
+    lhs = v.left.args[0].left
+    if isinstance(lhs, ast.Name) and lhs.id == "V":
+        err = "msum Rops (map (fun row => map2 (fun a b => sq Rops (fsub Rops a b)) row nr) V)"
+    elif _sub(lhs, "V", ["k", ":"]):
+        err = "vsum Rops (map2 (fun a b => sq Rops (fsub Rops a b)) (mrow V k) nr)"
+    else:
+        raise Untranslatable("left operand of the error difference")
+    # the safety procedure after the update
+    post = body[body.index(upd[0]) + 1:]
+    if len(post) != 1 or not isinstance(post[0], ast.If) or post[0].orelse:
+        raise Untranslatable("one `if nonzero_rows and ...:` after the update expected")
+    t = post[0].test
+    ok = isinstance(t, ast.BoolOp) and isinstance(t.op, ast.And) and len(t.values) == 2 and isinstance(t.values[0], ast.Name) and t.values[0].id == "nonzero_rows" \
+        and isinstance(t.values[1], ast.Call) and _callname(t.values[1]) == "all" and isinstance(t.values[1].args[0], ast.Compare) \
+        and _sub(t.values[1].args[0].left, "V", ["k", ":"]) and isinstance(t.values[1].args[0].ops[0], ast.Eq) and _num(t.values[1].args[0].comparators[0]) == "0"
+    if not ok:
+        raise Untranslatable("test of the safety procedure is not `nonzero_rows and tl.all(V[k, :] == 0)`")
+    a = post[0].body
+    if not (len(a) == 1 and isinstance(a[0], ast.Assign) and _sub(a[0].targets[0], "V", ["k", ":"])):
+        raise Untranslatable("safety procedure does not assign V[k, :]")
+    val = a[0].value
+    if not (isinstance(val, ast.BinOp) and isinstance(val.op, ast.Mult)):
+        raise Untranslatable("safety value is not a product")
+    def fac(e):
+        if isinstance(e, ast.Call) and _callname(e) == "eps":
+            return "meps"
+        if isinstance(e, ast.Call) and _callname(e) == "max" and len(e.args) == 1 and isinstance(e.args[0], ast.Name) and e.args[0].id == "V":
+            return "(mmax Rops V')"
+        raise Untranslatable("factor of the safety value")
+    safety = f"fmul Rops {fac(val.left)} {fac(val.right)}"
+    # elif nonzero_rows: raise ValueError
+    if not (len(orelse) == 1 and isinstance(orelse[0], ast.If) and isinstance(orelse[0].test, ast.Name) and orelse[0].test.id == "nonzero_rows"
+            and len(orelse[0].body) == 1 and isinstance(orelse[0].body[0], ast.Raise) and not orelse[0].orelse):
+        raise Untranslatable("`elif nonzero_rows: raise ValueError(...)` not found")
+    return ("Goal forall (UtM UtU V : mat) (n k : nat) (o : @hopts R), is0 Rops (mget Rops UtU k k) = false ->\n"
+            "  let nr := hals_newrow Rops UtM UtU n o V k in\n"
+            f"  hals_err Rops UtM UtU n o V k = {err}.\n"
+            "Proof. intros UtM UtU V n k o H nr. unfold hals_err. rewrite H. reflexivity. Qed.\n"
+            "Goal forall (UtM UtU V : mat) (n k : nat) (sp rd : option R) (eps meps : R), is0 Rops (mget Rops UtU k k) = false ->\n"
+            "  let o := mkH sp rd true eps meps in let nr := hals_newrow Rops UtM UtU n o V k in let V' := set_nth k nr V in\n"
+            f"  hals_step Rops UtM UtU n o V k = if forallb (is0 Rops) nr then set_nth k (map (fun _ => {safety}) nr) V' else V'.\n"
+            "Proof. intros UtM UtU V n k sp rd eps meps H o nr V'. unfold hals_step. rewrite H. cbn [h_nz h_meps andb]. reflexivity. Qed.\n"
+            "Goal forall (UtM UtU : mat) (iters : nat) (sp rd : option R) (eps meps : R) (nz : bool),\n"
+            "  hals_rejects Rops UtM UtU iters (mkH sp rd nz eps meps) = (nz && zero_diag Rops UtM UtU && negb (Nat.eqb iters 0)).\n"
+            "Proof. intros. reflexivity. Qed.\n")
+
+
+def tie_fista_entry(tree):
+    """the argument handling of fista: None -> 0 for sparsity_coef / ridge_coef, x None -> zeros of UtM's shape, the default step"""
+    fn = _func(tree, "fista")
+    pre = []
+    for s in fn.body:
+        if isinstance(s, ast.For):
+            break
+        pre.append(s)
+    vals = {}
+    for s in pre:
+        if isinstance(s, ast.If) and not s.orelse:
+            t = _is_none_test(s.test)
+            if t is not None and t[1] and len(s.body) == 1 and isinstance(s.body[0], ast.Assign) and isinstance(s.body[0].targets[0], ast.Name) and s.body[0].targets[0].id == t[0]:
+                vals[t[0]] = s.body[0].value
+    for need in ("sparsity_coef", "ridge_coef", "x", "lr"):
+        if need not in vals:
+            raise Untranslatable(f"`if {need} is None: {need} = ...` not found")
+    sp0, rd0 = _num(vals["sparsity_coef"]), _num(vals["ridge_coef"])
+    if sp0 is None or rd0 is None:
+        raise Untranslatable("default of sparsity_coef / ridge_coef is not a number")
+    xz = vals["x"]
+    if not (isinstance(xz, ast.Call) and _callname(xz) == "zeros" and isinstance(xz.args[0], ast.Call) and _callname(xz.args[0]) == "shape"
+            and isinstance(xz.args[0].args[0], ast.Name) and xz.args[0].args[0].id == "UtM"):
+        raise Untranslatable("default start is not tl.zeros(tl.shape(UtM), ...)")
+
+    def special(e, tr):
+        # tl.truncated_svd(UtU)[1][0]: the leading singular value (recorded data sigma)
+        if isinstance(e, ast.Subscript) and _num(e.slice) == "0" and isinstance(e.value, ast.Subscript) and _num(e.value.slice) == "1" \
+                and isinstance(e.value.value, ast.Call) and _callname(e.value.value) == "truncated_svd" and isinstance(e.value.value.args[0], ast.Name) \
+                and e.value.value.args[0].id == "UtU":
+            return lambda i, j: "sigma"
+        return None
+    tr = Entry({"ridge_coef": lambda i, j: "rd"}, {}, special)
+    lr = tr.expr(vals["lr"])("i", "j")
+    order = [pre.index(s) for s in pre if isinstance(s, ast.If) and _is_none_test(s.test) and _is_none_test(s.test)[0] in ("ridge_coef", "lr")]
+    names = [_is_none_test(pre[k].test)[0] for k in order]
+    if names.index("ridge_coef") > names.index("lr"):
+        raise Untranslatable("ridge_coef is defaulted after the step is computed from it")
+    return ("From TLV Require Import Model.NnlsEntry.\n"
+            f"Goal forall sigma rd : R, fista_default_lr Rops sigma rd = {lr}.\n"
+            "Proof. intros. unfold fista_default_lr, two. cbn [f1 fadd fmul fdiv Rops]. reflexivity. Qed.\n"
+            "Goal forall (UtM UtU : mat) (n : nat) (nonneg : bool) (sigma tol eps : R) (betas : list R),\n"
+            "  fista_call Rops UtM UtU n nonneg None None None sigma tol eps None betas =\n"
+            f"  Ok (fista Rops UtM UtU n nonneg {sp0} {rd0} (fista_default_lr Rops sigma {rd0}) tol eps (zeros_like Rops UtM) betas).\n"
+            "Proof. intros. reflexivity. Qed.\n"
+            "Goal forall (UtM UtU x0 : mat) (n : nat) (nonneg : bool) (sp rd lr sigma tol eps : R) (betas : list R),\n"
+            "  fista_call Rops UtM UtU n nonneg (Some sp) (Some rd) (Some lr) sigma tol eps (Some x0) betas = Ok (fista Rops UtM UtU n nonneg sp rd lr tol eps x0 betas).\n"
+            "Proof. intros. reflexivity. Qed.\n")
+
+
+def tie_admm_split(tree):
+    fn = _func(tree, "admm")
+    rho = [s for s in fn.body if isinstance(s, ast.Assign) and isinstance(s.targets[0], ast.Name) and s.targets[0].id == "rho"]
+    lp = _for_over(fn.body, "iteration")
+    xs = [s for s in lp.body if isinstance(s, ast.Assign) and isinstance(s.targets[0], ast.Name) and s.targets[0].id == "x_split"]
+    if len(rho) != 1 or len(xs) != 1:
+        raise Untranslatable("rho / x_split assignments")
+    m = Mat({"UtU": ("M", "UtU", "r", "r"), "UtM": ("M", "UtM", "m", "r"), "x": ("M", "x", "m", "r"), "dual_var": ("M", "dual", "m", "r")},
+            lambda a, b: f"(solve {a} {b})")
+    # tl.eye(n, **tl.context(UtU)): the keyword arguments carry no arithmetic
+    class _NoKw(ast.NodeTransformer):
+        def visit_Call(self, node):
+            self.generic_visit(node)
+            if _callname(node) == "eye":
+                node.keywords = []
+            return node
+    m.run([rho[0], _NoKw().visit(xs[0])])
+    v = m.env["x_split"]
+    return ("Goal forall (solve : mat -> mat -> mat) (UtM UtU x dual : mat) (m r it : nat),\n"
+            f"  snd (fst (admm_none Rops solve UtM UtU x dual m r (S it))) = Some {v[1]}.\nProof. intros. reflexivity. Qed.\n")
+
+
+def tie_aset_tests(tree):
+    """active_set_nnls: when the index with the largest gradient enters the passive set, and the termination test"""
+    fn = _func(tree, "active_set_nnls")
+    outer = _for_over(fn.body, "iteration")
+    first = outer.body[0]
+    if not isinstance(first, ast.If) or first.orelse:
+        raise Untranslatable("index selection `if iteration > 0 or tl.all(x_vec == 0):` not first in the loop")
+    t = first.test
+    ok = isinstance(t, ast.BoolOp) and isinstance(t.op, ast.Or) and len(t.values) == 2 \
+        and isinstance(t.values[0], ast.Compare) and isinstance(t.values[0].left, ast.Name) and t.values[0].left.id == "iteration" \
+        and isinstance(t.values[0].ops[0], ast.Gt) and _num(t.values[0].comparators[0]) == "0" \
+        and isinstance(t.values[1], ast.Call) and _callname(t.values[1]) == "all" and isinstance(t.values[1].args[0], ast.Compare) \
+        and isinstance(t.values[1].args[0].left, ast.Name) and t.values[1].args[0].left.id == "x_vec" \
+        and isinstance(t.values[1].args[0].ops[0], ast.Eq) and _num(t.values[1].args[0].comparators[0]) == "0"
+    if not ok:
+        raise Untranslatable("index selection test")
+    b = first.body
+    ok = len(b) == 3 and isinstance(b[0], ast.Assign) and b[0].targets[0].id == "indice" and isinstance(b[0].value, ast.Call) and _callname(b[0].value) == "argmax" \
+        and isinstance(b[0].value.args[0], ast.Name) and b[0].value.args[0].id == "x_gradient"
+    def upd(s, name, val):
+        return isinstance(s, ast.Assign) and s.targets[0].id == name and isinstance(s.value, ast.Call) and _callname(s.value) == "index_update" \
+            and isinstance(s.value.args[0], ast.Name) and s.value.args[0].id == name and isinstance(s.value.args[2], ast.Constant) and s.value.args[2].value is val \
+            and isinstance(s.value.args[1], ast.Subscript) and isinstance(s.value.args[1].slice, ast.Name) and s.value.args[1].slice.id == "indice"
+    if not (ok and upd(b[1], "passive_set", True) and upd(b[2], "active_set", False)):
+        raise Untranslatable("index selection body (argmax of the gradient; passive True, active False)")
+    last = outer.body[-1]
+    ok = isinstance(last, ast.If) and len(last.body) == 1 and isinstance(last.body[0], ast.Break) and isinstance(last.test, ast.BoolOp) and isinstance(last.test.op, ast.Or) \
+        and len(last.test.values) == 2
+    if not ok:
+        raise Untranslatable("termination test is not the last statement `if ... or ...: break`")
+    t1, t2 = last.test.values
+    ok1 = isinstance(t1, ast.Compare) and isinstance(t1.left, ast.Call) and _callname(t1.left) == "any" and isinstance(t1.left.args[0], ast.Name) \
+        and t1.left.args[0].id == "active_set" and isinstance(t1.ops[0], ast.NotEq) and isinstance(t1.comparators[0], ast.Constant) and t1.comparators[0].value is True
+    ok2 = isinstance(t2, ast.Compare) and isinstance(t2.left, ast.Call) and _callname(t2.left) == "max" and isinstance(t2.left.args[0], ast.Subscript) \
+        and isinstance(t2.left.args[0].value, ast.Name) and t2.left.args[0].value.id == "x_gradient" and isinstance(t2.left.args[0].slice, ast.Name) \
+        and t2.left.args[0].slice.id == "active_set" and isinstance(t2.ops[0], ast.LtE) and isinstance(t2.comparators[0], ast.Name) and t2.comparators[0].id == "tol"
+    if not (ok1 and ok2):
+        raise Untranslatable("termination test is not `tl.any(active_set) != True or tl.max(x_gradient[active_set]) <= tol`")
+    # x_vec = clip(support_vec, 0) and the gradient before the test
+    pre = outer.body[-3:-1]
+    okc = isinstance(pre[0], ast.Assign) and pre[0].targets[0].id == "x_vec" and isinstance(pre[0].value, ast.Call) and _callname(pre[0].value) == "clip"
+    okg = isinstance(pre[1], ast.Assign) and pre[1].targets[0].id == "x_gradient"
+    if not (okc and okg):
+        raise Untranslatable("x_vec = clip(support_vec, 0); x_gradient = ... before the termination test")
+    gm = Mat({}, None)
+    return ("(* `max(l) <= t` with NumPy's empty-selection case excluded by the first disjunct *)\n"
+            "Definition maxle (l : list R) (t : R) : bool := match vmin' Rops (map (fopp Rops) l) with Some nm => fleb Rops (fopp Rops nm) t | None => true end.\n"
+            "Goal forall (tol : R) (active : list bool) (g : list R), as_done Rops tol active g = (negb (anyb active) || maxle (select active g) tol).\n"
+            "Proof. intros. reflexivity. Qed.\n"
+            "Goal forall (solve : mat -> list R -> option (list R)) (rnd : R -> R) (Utm : list R) (UtU : mat) (tol : R) (f : nat) (iter0 : bool) (x g : list R) (p a : list bool),\n"
+            "  as_loop Rops solve rnd Utm UtU tol (S f) iter0 x g p a =\n"
+            "  match as_body Rops solve rnd Utm UtU iter0 x g p a with None => None | Some (s2, p2, a2) =>\n"
+            "    let x3 := map (fmax Rops 0) s2 in let g3 := gradient Rops Utm UtU x3 in\n"
+            "    if as_done Rops tol a2 g3 then Some (x3, true) else as_loop Rops solve rnd Utm UtU tol f false x3 g3 p2 a2 end.\n"
+            "Proof. intros. reflexivity. Qed.\n"
+            "(* the index selection: executed when `iteration > 0 or all(x == 0)`; the index is argmax of the whole gradient *)\n"
+            "Goal forall (solve : mat -> list R -> option (list R)) (rnd : R -> R) (Utm : list R) (UtU : mat) (iter0 : bool) (x g : list R) (p a : list bool),\n"
+            "  let add := negb iter0 || forallb (is0 Rops) x in\n"
+            "  let p1 := if add then set_nth (argmax Rops g) true p else p in let a1 := if add then set_nth (argmax Rops g) false a else a in\n"
+            "  solve_scatter Rops solve Utm UtU p1 <> None -> forall s1, solve_scatter Rops solve Utm UtU p1 = Some s1 ->\n"
+            "  as_body Rops solve rnd Utm UtU iter0 x g p a =\n"
+            "  match vmin' Rops (select p1 s1) with None => None | Some mn =>\n"
+            "    if fleb Rops mn 0 then match inner Rops solve rnd Utm UtU (length p1) x s1 p1 with Some (x2, s2, p2) => Some (s2, p2, negmask p2) | None => None end\n"
+            "    else Some (s1, p1, a1) end.\n"
+            "Proof. intros solve rnd Utm UtU iter0 x g p a add p1 a1 _ s1 H. unfold as_body. fold add. fold p1. fold a1. rewrite H. reflexivity. Qed.\n")
+
+
 def ties(nnls_src, admm_src):
     """-> list of (name, goal text or None, reason)"""
     out = []
     t1, t2 = ast.parse(nnls_src), ast.parse(admm_src)
     for name, f, tree in (("hals_row_update", tie_hals_row, t1), ("hals_stop_rule", tie_hals_stop, t1), ("hals_cold_start", tie_hals_cold, t1),
                           ("fista_step", tie_fista_step, t1), ("fista_loop_step", tie_fista_loop, t1), ("aset_step", tie_aset_step, t1),
-                          ("admm_none", tie_admm_none, t2)):
+                          ("admm_none", tie_admm_none, t2), ("hals_error_nonzero_rows", tie_hals_err_nz, t1), ("fista_entry", tie_fista_entry, t1),
+                          ("admm_x_split", tie_admm_split, t2), ("aset_selection_termination", tie_aset_tests, t1)):
         try:
             out.append((name, f(tree), None))
         except (Untranslatable, KeyError, IndexError, AttributeError, TypeError) as e:
